@@ -654,7 +654,7 @@ class ContainerValue:
         def is_equal_to(condition, cls):
             return type(condition) is cls and condition.callable.name == "equal_to"
 
-        if primitive and not self.label:
+        if primitive and self.label is None:
             if isinstance(self, MapValue) and is_equal_to(self.condition, cnds.Key):
                 value = self.condition.callable.kwargs["value"]
                 if isinstance(value, (str, float)):
